@@ -322,7 +322,10 @@ func (e *Engine) tokEncodeFrom(st *State, w Val, vals []Val, i int, pos token.Po
 			e.Assumed["Encode of values with unknown dynamic type: does not panic"] = true
 			writeTok(st, "encoder", tb.Int(0), tb.App("encval", SInt, el.ifTag(), el.ifVal()))
 		default:
-			panic(e.unsupported("perunio.Encode of an interface value that is neither a BinaryMarshaler nor an Encoder: " + bx.Static.String()))
+			// the codec asserts the value to be an Encoder at run time and panics otherwise (isEncoder(x) in specs)
+			e.Assumed["Encode of values with unknown dynamic type: does not panic"] = true
+			e.oblige(st, "panic", "type", pos, tb.App("implements_wire_perunio.Encoder", SBool, el.ifTag()), "perunio.Encode: the value's dynamic type is not an Encoder (encoder panics): "+bx.Static.String())
+			writeTok(st, "encoder", tb.Int(0), tb.App("encval", SInt, el.ifTag(), el.ifVal()))
 		}
 		return
 	}
